@@ -102,6 +102,7 @@ type rCase struct {
 	build          func(wrap func(api.RateFunction) api.RateFunction) (*api.Trigger, error)
 	bodyMaxUs      int
 	bodyFixedUs    int    // every body takes this long
+	slowProgressUs int64  // the log sink takes this long to take a progress line
 	teardownMode   string // a cleanup registered by the setup fails this way when the run is over
 	failEvery      int
 	mixNames       bool   // consecutive runs on one metrics instance use different scenario names
@@ -125,6 +126,7 @@ type rCase struct {
 }
 
 type rRec struct {
+	slowProgressUs  int64
 	priming         atomic.Bool // an earlier run on the same F1 instance is in progress: nothing of it is recorded
 	mu              sync.Mutex
 	t0              time.Time
@@ -352,6 +354,9 @@ func (h *rHandler) Handle(_ context.Context, rc slog.Record) error {
 		return true
 	})
 	if rc.Message == "progress" {
+		if h.rec.slowProgressUs > 0 {
+			time.Sleep(time.Duration(h.rec.slowProgressUs) * time.Microsecond) // a slow sink (a pipe, a remote log collector)
+		}
 		if h.rec.returned.Load() {
 			h.rec.afterP.Add(1)
 		}
@@ -398,6 +403,7 @@ func runOne(c *ctx, rc rCase, m *metrics.Metrics) rTrace {
 		stopDelay: time.Duration(rc.cfg.StopDelayUs) * time.Microsecond, wedge: rc.cfg.Wedge, atSummary: make(chan struct{}),
 		stallEval: rc.cfg.StallEval, stallUs: rc.cfg.StallUs, stageEndDelayAt: rc.cfg.StageEndDelayAt, stageEndDelayUs: rc.cfg.StageEndDelayUs,
 		cancelAtEval: rc.cfg.CancelAtEval, stallFirstUs: rc.cfg.StallFirstUs}
+	rec.slowProgressUs = rc.slowProgressUs
 	verifhook.Install(rec.hook)
 	defer verifhook.Install(nil)
 	curRec.Store(rec)
@@ -1193,6 +1199,15 @@ func buildCases(c *ctx) []rCase {
 		rsi := constantCase("interrupt-during-failing-setup", "5/10ms", 10*ms, 2, 0, 2000*ms, "none")
 		rsi.cfg.SetupFail, rsi.cfg.SetupMode, rsi.cfg.SetupUs, rsi.cfg.CancelUs = true, []string{"fail", "failnow", "panic-error"}[c.rng.Intn(3)], 70*ms, 20*ms
 		add(viaCLI(rsi, "constant", "-r", "5/10ms", "--distribution", "none"))
+		// the run ends while its periodic progress function is still writing to a slow sink (the 1 s tick, the run over
+		// at 1.03 s, the sink takes 90 ms): the run has stopped its progress runner - and so waited for it - before it
+		// goes on to the summary and returns
+		{
+			rp := constantCase("slow-progress-sink", "2/50ms", 50*ms, 2, 0, 1030*ms, "none")
+			rp.slowProgressUs = 90 * ms
+			rp.bodyMaxUs = 1000
+			add(rp)
+		}
 		// every iteration passes, a cleanup registered by the setup fails: a failed run, and its summary says so
 		for k, api := range []bool{false, true} {
 			rt := constantCase("teardown-fails", "4/20ms", 20*ms, 3, 0, 200*ms, "none")
